@@ -1,4 +1,4 @@
-import ZvbiModel.Cache.LemmasHeld2
+import ZvbiModel.Cache.LemmasFix
 import ZvbiModel.Cache.LemmasWitness
 /-!
 # C10 - the Teletext cache is a coherent, bounded, reference-safe page store
@@ -13,8 +13,14 @@ Property theorems only; the lemma chain is in `ZvbiModel/Cache/Lemmas*.lean`.
   or looked-up first; `alookup` / `atouch` / `aput` are the map operations with the documented key
   rule `putKey`.
 
-Full-strength statements that are FALSE on the current code are kept next to a proved witness
-(`*_counterexample`); statements not proved are listed as `def ... : Prop` at the end.
+Two source shapes (Cache/Model.lean, end): `stepF false` / `runF false` (= `step` / `run`) is `_vbi_cache_put_page` as it
+was when finding F17 was made, `stepF true` / `runF true` is the shape after fixes/C10-put-replaces-all-versions.diff;
+translate/gen_cache.py reads which one the current source has (`Gen.Cache.putReplacesAllVersions`, the driver runs
+`stepCur`).  Every theorem below with a parameter `fix` holds for BOTH shapes; the witnesses of F17
+(`*_counterexample`) are about the shape as found (`run`), the statements that need the repair are in Props/C10Evict.lean.
+
+Full-strength statements that are FALSE on the shape as found are kept next to a proved witness
+(`*_counterexample`); statements not proved are listed as `def ... : Prop` at the end of Props/C10Evict.lean.
 -/
 namespace Zvbi.Props.C10
 open Zvbi.Cache Zvbi.Gen.Cache
@@ -27,24 +33,24 @@ theorem inv_init : Cache.Inv init := inv_iff_good.2 good_init
 /-- Every operation of the cache API (put, get with masks, ref, unref, is-cached, hi-subno, page walk,
     add network, network ref / unref, channel switch, statistics reset, page-type update, purge,
     memory-limit change) keeps the invariant - including the eviction paths under memory pressure. -/
-theorem inv_step (s : State) (op : Op) (h : Cache.Inv s) : Cache.Inv (step s op).1 :=
-  inv_iff_good.2 (good_step (inv_iff_good.1 h) op)
+theorem inv_step (fix : Bool) (s : State) (op : Op) (h : Cache.Inv s) : Cache.Inv (stepF fix s op).1 :=
+  inv_iff_good.2 (good_stepF fix (inv_iff_good.1 h) op)
 
 /-- After any finite history of operations the bookkeeping is exact. -/
-theorem inv_reachable (ops : List Op) : Cache.Inv (run init ops) := by
-  suffices h : ∀ s, Cache.Inv s → Cache.Inv (run s ops) from h init inv_init
+theorem inv_reachable (fix : Bool) (ops : List Op) : Cache.Inv (runF fix init ops) := by
+  suffices h : ∀ s, Cache.Inv s → Cache.Inv (runF fix s ops) from h init inv_init
   induction ops with
   | nil => intro s h; exact h
-  | cons op t ih => intro s h; exact ih _ (inv_step s op h)
+  | cons op t ih => intro s h; exact ih _ (inv_step fix s op h)
 
-example : Cache.Inv (run init [.addNet, .put 0 ⟨0x100, 0, 0, 0, 0, 7⟩, .unref 0, .chsw 0]) := inv_reachable _
+example : Cache.Inv (runF true init [.addNet, .put 0 ⟨0x100, 0, 0, 0, 0, 7⟩, .unref 0, .chsw 0]) := inv_reachable _ _
 
 /-- The per-page counter `n_subpages` is the number of cached versions of the page as long as there are
     fewer than 65536 of them (it is a `uint16_t` since 5e41e82; `Inv` states it modulo 65536). -/
-theorem nsub_exact_partial (ops : List Op) (n : Net) (hn : n ∈ (run init ops).nets) (pg : Nat)
-    (hsmall : (run init ops).pages.countP (fun p => p.net = n.id ∧ p.pgno = pg) < 65536) :
-    (n.getStat pg).nSub = (run init ops).pages.countP (fun p => p.net = n.id ∧ p.pgno = pg) := by
-  have := (inv_reachable ops).nSub n hn pg
+theorem nsub_exact_partial (fix : Bool) (ops : List Op) (n : Net) (hn : n ∈ (runF fix init ops).nets) (pg : Nat)
+    (hsmall : (runF fix init ops).pages.countP (fun p => p.net = n.id ∧ p.pgno = pg) < 65536) :
+    (n.getStat pg).nSub = (runF fix init ops).pages.countP (fun p => p.net = n.id ∧ p.pgno = pg) := by
+  have := (inv_reachable fix ops).nSub n hn pg
   omega
 
 /-- The bound that would make the hypothesis above (and that of `limit_unreachable_0_2`) a theorem - at most
@@ -71,15 +77,16 @@ theorem page_bound_counterexample :
 /-- Look-up refines the map: `_vbi_cache_get_page` returns a copy-equal page iff the abstract store has a
     version matching the key under the mask - the most recently stored or looked-up one (wildcard
     subpage: `VBI_ANY_SUBNO` or a partial mask) - and that version becomes the most recent. -/
-theorem refines_map_get (ops : List Op) (nid pgno subno mask : Nat) (hv : validPgno pgno = true) :
-    let s := run init ops
+theorem refines_map_get (fix : Bool) (ops : List Op) (nid pgno subno mask : Nat) (hv : validPgno pgno = true) :
+    let s := runF fix init ops
     ((s.getPage nid pgno subno mask).2.map Page.entry = alookup s.abs nid pgno subno (if subno = anySubno then 0 else mask))
     ∧ (s.getPage nid pgno subno mask).1.abs = atouch s.abs nid pgno subno (if subno = anySubno then 0 else mask) :=
-  getPage_abs (inv_iff_good.1 (inv_reachable ops)).1 nid pgno subno mask hv
+  getPage_abs (inv_iff_good.1 (inv_reachable fix ops)).1 nid pgno subno mask hv
 
-/-- Store refines the map (memory not short): `_vbi_cache_put_page` hands out a page copy-equal to its
+/-- Store refines the map (memory not short), shape as found: `_vbi_cache_put_page` hands out a page copy-equal to its
     argument (with the subpage number of the key rule), that page is the most recent version, and exactly
-    the version found under the key of `putKey` is replaced. -/
+    the version found under the key of `putKey` is replaced.  The repaired shape: `refines_map_put_repaired`
+    (Props/C10Evict.lean). -/
 theorem refines_map_put (ops : List Op) (nid : Nat) (cn : Net) (a : PutArg)
     (hf : (run init ops).findNet nid = some cn)
     (hlow : a.pgno &&& 0xFF ≠ 0xFF) (hrange : 0x100 ≤ a.pgno ∧ a.pgno ≤ 0x8FF)
@@ -88,17 +95,18 @@ theorem refines_map_put (ops : List Op) (nid : Nat) (cn : Net) (a : PutArg)
     s'.abs = aput (run init ops).abs (putEntry nid a (putKey (cn.getStat a.pgno).ptype a.pgno a.subno).1)
         (putKey (cn.getStat a.pgno).ptype a.pgno a.subno).2
     ∧ r.map Page.entry = some (putEntry nid a (putKey (cn.getStat a.pgno).ptype a.pgno a.subno).1) :=
-  putPage_abs (inv_iff_good.1 (inv_reachable ops)).1 hf a hlow hrange hroom hres
+  putPage_abs (inv_iff_good.1 (by rw [← runF_false]; exact inv_reachable false ops)).1 hf a hlow hrange hroom hres
 
 /-- `vbi_is_cached` answers 1 iff the abstract store has the page (exact subpage, or any for `VBI_ANY_SUBNO`). -/
-theorem is_cached_agrees (ops : List Op) (nid pgno subno : Nat) (cn : Net) (hf : (run init ops).findNet nid = some cn)
-    (hv : validPgno pgno = true) :
-    (step (run init ops) (.isCached nid pgno subno)).2 =
-      .num (if (alookup (run init ops).abs nid pgno subno (if subno = anySubno then 0 else 0xFFFFFFFF)).isSome then 1 else 0) := by
-  have := (refines_map_get ops nid pgno subno 0xFFFFFFFF hv).1
+theorem is_cached_agrees (fix : Bool) (ops : List Op) (nid pgno subno : Nat) (cn : Net)
+    (hf : (runF fix init ops).findNet nid = some cn) (hv : validPgno pgno = true) :
+    (stepF fix (runF fix init ops) (.isCached nid pgno subno)).2 =
+      .num (if (alookup (runF fix init ops).abs nid pgno subno (if subno = anySubno then 0 else 0xFFFFFFFF)).isSome then 1 else 0) := by
+  have := (refines_map_get fix ops nid pgno subno 0xFFFFFFFF hv).1
+  show (step (runF fix init ops) (.isCached nid pgno subno)).2 = _
   unfold step; simp only [hf]
   revert this
-  cases hg : State.getPage (run init ops) nid pgno (↑subno) 0xFFFFFFFF with
+  cases hg : State.getPage (runF fix init ops) nid pgno (↑subno) 0xFFFFFFFF with
   | mk s' o =>
     cases o with
     | none => intro h; simp only [Option.map_none] at h; rw [← h]; rfl
@@ -107,10 +115,10 @@ theorem is_cached_agrees (ops : List Op) (nid pgno subno : Nat) (cn : Net) (hf :
 /-- The memory limit of libzvbi 0.2 (1 GiB, not changeable) is out of reach while the cache holds at most
     0x800 x 80 pages - the bound cache.c asserts under CACHE_CONSISTENCY: a put always finds room, so the
     death row stays as the look-up left it and nothing is evicted. -/
-theorem limit_unreachable_0_2 (ops : List Op) (hl : (run init ops).memLimit = memoryLimit0)
-    (hn : (run init ops).pages.length ≤ 0x800 * 80) (func : Int) (x26 x28 : Nat) :
-    (run init ops).memUsed + pageSize func x26 x28 ≤ (run init ops).memLimit :=
-  mem_room_0_2 (inv_reachable ops) hl hn func x26 x28
+theorem limit_unreachable_0_2 (fix : Bool) (ops : List Op) (hl : (runF fix init ops).memLimit = memoryLimit0)
+    (hn : (runF fix init ops).pages.length ≤ 0x800 * 80) (func : Int) (x26 x28 : Nat) :
+    (runF fix init ops).memUsed + pageSize func x26 x28 ≤ (runF fix init ops).memLimit :=
+  mem_room_0_2 (inv_reachable fix ops) hl hn func x26 x28
 
 /-- ... but the page-count bound itself does not hold: the key rule admits duplicate keys, one more cached
     copy per pair of puts (finding F17).  Replayed on the C code by the same corpus file. -/
@@ -140,56 +148,46 @@ theorem unique_key_counterexample :
     replaced: it becomes a zombie), look-ups, `cache_page_ref`, `vbi_is_cached`, the page walk (whose internal
     get / unref pairs are accounted for), network add / recycle / unref, channel switch, purge, eviction.
     The only way out is the release of its last reference. -/
-theorem held_page_intact (ops : List Op) (op : Op) (p : Page) (hp : p ∈ (run init ops).pages) (hr : 0 < p.ref) :
+theorem held_page_intact (fix : Bool) (ops : List Op) (op : Op) (p : Page) (hp : p ∈ (runF fix init ops).pages) (hr : 0 < p.ref) :
     (op = .unref p.id ∧ p.ref = 1) ∨
-    ∃ q ∈ (step (run init ops) op).1.pages, q.id = p.id ∧ q.net = p.net ∧ q.pgno = p.pgno ∧ q.subno = p.subno
+    ∃ q ∈ (stepF fix (runF fix init ops) op).1.pages, q.id = p.id ∧ q.net = p.net ∧ q.pgno = p.pgno ∧ q.subno = p.subno
       ∧ q.func = p.func ∧ q.x26 = p.x26 ∧ q.x28 = p.x28 ∧ q.tag = p.tag
       ∧ p.ref ≤ q.ref + (if op = .unref p.id then 1 else 0) := by
-  rcases held_full_step (good_runFrom good_init ops) op p hp hr with h | ⟨q, hq, c, r⟩
+  rcases held_full_stepF fix (good_runF fix good_init ops) op p hp hr with h | ⟨q, hq, c, r⟩
   · exact Or.inl h
   · obtain ⟨e1, e2, e3, e4, e5, e6, e7, e8⟩ := c
     exact Or.inr ⟨q, hq, e1.symm, e2.symm, e3.symm, e4.symm, e5.symm, e6.symm, e7.symm, e8.symm, r⟩
 
 /-- ... and through any further history that does not release a reference on it. -/
-theorem held_page_intact_history (ops more : List Op) (p : Page) (hp : p ∈ (run init ops).pages) (hr : 0 < p.ref)
-    (hno : ∀ op ∈ more, op ≠ .unref p.id) :
-    ∃ q ∈ (run (run init ops) more).pages, q.id = p.id ∧ q.net = p.net ∧ q.pgno = p.pgno ∧ q.subno = p.subno
+theorem held_page_intact_history (fix : Bool) (ops more : List Op) (p : Page) (hp : p ∈ (runF fix init ops).pages)
+    (hr : 0 < p.ref) (hno : ∀ op ∈ more, op ≠ .unref p.id) :
+    ∃ q ∈ (runF fix (runF fix init ops) more).pages, q.id = p.id ∧ q.net = p.net ∧ q.pgno = p.pgno ∧ q.subno = p.subno
       ∧ q.func = p.func ∧ q.x26 = p.x26 ∧ q.x28 = p.x28 ∧ q.tag = p.tag ∧ p.ref ≤ q.ref := by
-  obtain ⟨q, hq, c, r⟩ := held_history (good_runFrom good_init ops) more p hp hr hno
+  obtain ⟨q, hq, c, r⟩ := held_historyF fix (good_runF fix good_init ops) more p hp hr hno
   obtain ⟨e1, e2, e3, e4, e5, e6, e7, e8⟩ := c
   exact ⟨q, hq, e1.symm, e2.symm, e3.symm, e4.symm, e5.symm, e6.symm, e7.symm, e8.symm, r⟩
 
-example : ∃ q ∈ (run (run init [.addNet, .put 0 ⟨0x100, 0, 0, 0, 0, 7⟩]) [.put 0 ⟨0x100, 0, 0, 0, 0, 8⟩, .chsw 0, .purge]).pages,
+example : ∃ q ∈ (runF true (runF true init [.addNet, .put 0 ⟨0x100, 0, 0, 0, 0, 7⟩]) [.put 0 ⟨0x100, 0, 0, 0, 0, 8⟩, .chsw 0, .purge]).pages,
     q.tag = 7 ∧ q.ref = 1 := by decide
 
 /-- After `vbi_chsw_reset` no page is reachable through the decoder's (new) network: it has no page at all,
     and every look-up in it fails until something is stored. -/
-theorem chsw_unreachable (ops : List Op) (nid : Nat) (cn : Net) (hf : (run init ops).findNet nid = some cn)
-    (nid' : Nat) (hout : (step (run init ops) (.chsw nid)).2 = .net nid') :
-    (∀ q ∈ (step (run init ops) (.chsw nid)).1.pages, q.net ≠ nid')
-    ∧ ∀ pgno subno mask, ((step (run init ops) (.chsw nid)).1.getPage nid' pgno subno mask).2 = none := by
-  have h := chsw_empty (inv_iff_good.1 (inv_reachable ops)) nid cn hf nid' hout
+theorem chsw_unreachable (fix : Bool) (ops : List Op) (nid : Nat) (cn : Net) (hf : (runF fix init ops).findNet nid = some cn)
+    (nid' : Nat) (hout : (stepF fix (runF fix init ops) (.chsw nid)).2 = .net nid') :
+    (∀ q ∈ (stepF fix (runF fix init ops) (.chsw nid)).1.pages, q.net ≠ nid')
+    ∧ ∀ pgno subno mask, ((stepF fix (runF fix init ops) (.chsw nid)).1.getPage nid' pgno subno mask).2 = none := by
+  have h := chsw_empty (inv_iff_good.1 (inv_reachable fix ops)) nid cn hf nid' hout
   exact ⟨h, fun pgno subno mask => getPage_none_of_empty h pgno subno mask⟩
 
 /-- Teardown: when the client has released every page and network reference, `vbi_cache_delete`'s purge
     leaves no page, no network and empty lists - nothing is leaked. -/
-theorem teardown_frees_all (ops : List Op) (hp : ∀ p ∈ (run init ops).pages, p.ref = 0)
-    (hn : ∀ n ∈ (run init ops).nets, n.ref = 0) :
-    (step (run init ops) .purge).1.pages = [] ∧ (step (run init ops) .purge).1.nets = []
-    ∧ (step (run init ops) .purge).1.priority = [] ∧ (step (run init ops) .purge).1.referenced = [] :=
-  purge_frees_all (inv_iff_good.1 (inv_reachable ops)) hp hn
+theorem teardown_frees_all (fix : Bool) (ops : List Op) (hp : ∀ p ∈ (runF fix init ops).pages, p.ref = 0)
+    (hn : ∀ n ∈ (runF fix init ops).nets, n.ref = 0) :
+    (stepF fix (runF fix init ops) .purge).1.pages = [] ∧ (stepF fix (runF fix init ops) .purge).1.nets = []
+    ∧ (stepF fix (runF fix init ops) .purge).1.priority = [] ∧ (stepF fix (runF fix init ops) .purge).1.referenced = [] :=
+  purge_frees_all (inv_iff_good.1 (inv_reachable fix ops)) hp hn
 
 example : (step (run init [.addNet, .put 0 ⟨0x100, 0, 0, 0, 0, 7⟩, .unref 0, .netUnref 0]) .purge).1.pages = [] := by
   decide
-
-/-! ## statements kept visible, not proved -/
-
-/-- FULL statement of `hi_subno_agrees`: `vbi_cache_hi_subno` (`subno_max`) bounds the subpage numbers of the cached
-    versions of the page.  Not proved: it needs one more invariant clause threaded through every primitive, and since
-    5e41e82 it can only hold under the hypothesis of `nsub_exact_partial` (the range restarts when `n_subpages == 1`,
-    which is also true at 65537 copies).  Validated by the oracle (`hisubno` against the range rule) on every run. -/
-def hi_subno_agrees_full : Prop :=
-  ∀ (ops : List Op) (n : Net) (p : Page), n ∈ (run init ops).nets → p ∈ (run init ops).pages → p.net = n.id →
-    p.subno ≤ (n.getStat p.pgno).subMax
 
 end Zvbi.Props.C10
